@@ -115,6 +115,10 @@ pub fn gen_values(r: &mut Rng, n_random: usize) -> Vec<DbValue> {
     vs.push(DbValue::VecString(vec![String::new(), padded(15, '\u{20ac}'), padded(16, '\u{1f600}'), "x".repeat(300)]));
     vs.push(DbValue::Bytes((0..300).map(|i| i as u8).collect()));
     vs.push(DbValue::String("y".repeat(5000)));
+    // payloads beyond 64 KiB, not a multiple of any block size (storage back-ends that write or log in blocks)
+    vs.push(DbValue::Bytes((0..70_001u32).map(|i| (i * 7 + (i >> 8)) as u8).collect()));
+    vs.push(DbValue::String((0..140_003u32).map(|i| (b'a' + (i % 23) as u8) as char).collect()));
+    vs.push(DbValue::VecI64((0..20_011i64).map(|i| i * 1_000_003 - 7).collect()));
     for _ in 0..n_random { vs.push(DbValue::generate(r, 0)); }
     let m = mark();
     vs.retain(|v| *v != m);
@@ -326,6 +330,16 @@ fn construction_keeps_bits(r: &mut Rng, o: &mut Out) {
     }
 }
 
+// values above this payload size are checked on the implementation only (bit-for-bit oracle through every variant); the extracted
+// model evaluates them too slowly for a per-change check and the theorems cover every length anyway
+const MODEL_MAX_PAYLOAD: usize = 6000;
+fn payload_len(v: &DbValue) -> usize {
+    match v {
+        DbValue::Bytes(b) => b.len(), DbValue::String(s) => s.len(), DbValue::VecI64(l) => l.len() * 8, DbValue::VecU64(l) => l.len() * 8,
+        DbValue::VecF64(l) => l.len() * 8, DbValue::VecString(l) => l.iter().map(|s| s.len() + 8).sum(), _ => 8,
+    }
+}
+
 pub fn run(r: &mut Rng, n_random: usize, dir: &str, o: &mut Out) {
     construction_keeps_bits(r, o);
     let vals = gen_values(r, n_random);
@@ -354,6 +368,7 @@ pub fn run(r: &mut Rng, n_random: usize, dir: &str, o: &mut Out) {
                 reopen_as::<FileStorage>("cross:memory->file", &pm, chunk, ids, o, |p| DbFile::new(p));
             }
             for (v, line) in chunk.iter().zip(back.iter()) {
+                if payload_len(v) > MODEL_MAX_PAYLOAD { o.count("large-payload:implementation-only", 1); continue; }
                 o.cases.push(format!("value rt {}", show_value(v)));
                 o.imp.push(line.clone());
             }
@@ -382,6 +397,7 @@ pub fn run(r: &mut Rng, n_random: usize, dir: &str, o: &mut Out) {
     for i in 0..n {
         let k = &vals[i];
         let v = &vals[(i * 7 + 3) % n];
+        if payload_len(k) > MODEL_MAX_PAYLOAD || payload_len(v) > MODEL_MAX_PAYLOAD { continue; }
         if k == v && matches!(k, DbValue::F64(_)) { /* fine: same value as key and value */ }
         let (line, back) = guarded(o, &format!("index bytes of {} {}", show_value(k), show_value(v)), |_| index_bytes(k, v)).unwrap_or(("panic".into(), "panic".into()));
         o.cases.push(format!("value ix {} {}", show_value(k), show_value(v)));
